@@ -16,11 +16,11 @@ import vlib
 ACTIONS = ["Enq", "Sig", "Drain", "Deq"]
 
 
-def cfg(name, spec, sockets, nmsgs, nextra, rounds, polls, invs=None, props=None, mutation="none", record=False, extra=""):
+def cfg(name, spec, sockets, nmsgs, nextra, rounds, polls, invs=None, props=None, mutation="none", record=False, extra="", tloops="{FALSE}", intr=0):
     p = os.path.join(vlib.SPEC, "ThreadQueue", name)
     with open(p, "w") as f:
-        f.write("SPECIFICATION %s\nCONSTANTS\n  Sockets = %s\n  NMsgs = %d\n  NExtra = %d\n  Rounds = %d\n  MaxPolls = %d\n  Mutation = \"%s\"\n  RECORD = %s\n" %
-                (spec, "TRUE" if sockets else "FALSE", nmsgs, nextra, rounds, polls, mutation, "TRUE" if record else "FALSE"))
+        f.write("SPECIFICATION %s\nCONSTANTS\n  Sockets = %s\n  NMsgs = %d\n  NExtra = %d\n  Rounds = %d\n  MaxPolls = %d\n  TimedLoops = %s\n  MaxIntr = %d\n  Mutation = \"%s\"\n  RECORD = %s\n" %
+                (spec, "TRUE" if sockets else "FALSE", nmsgs, nextra, rounds, polls, tloops, intr, mutation, "TRUE" if record else "FALSE"))
         if invs: f.write("INVARIANTS " + " ".join(invs) + "\n")
         if props: f.write("PROPERTIES " + " ".join(props) + "\n")
         f.write(extra)
